@@ -28,7 +28,7 @@ def main():
         if not os.path.exists(mp):
             continue
         meta = json.load(open(mp))
-        if not a.readme_only and (a.only is None or a.only == d):
+        if not a.readme_only and (a.only is None or a.only == d or (a.only.endswith("*") and d.startswith(a.only[:-1]))):
             res = I.run_check_against(os.path.join(root, d, "patch.diff"),
                                       meta["property"], [])
             if res.get("exit") == 0 and a.longer:
